@@ -351,6 +351,10 @@ def main(argv=None):
     known = load_known()
     new, seen_known = {}, {}
     for v in acc.violations:
+        if v.get("sig") == "harness":
+            # a failure of the machinery itself (non-determinism, bookkeeping mismatch): never a verdict on asynq
+            acc.harness_errors.append("[%s] %s" % (v.get("build"), v.get("msg")))
+            continue
         k = match_known(prop, v, known)
         if k is not None:
             seen_known.setdefault(k["id"], [k, 0])[1] += 1
